@@ -201,7 +201,7 @@ Units expression_soup(jm::Entropy &e, std::string *ops) {
 }
 
 // templates built around the width of the scanner's offset / counter fields (8 and 16 bit) and around bracket edge cases
-Units boundary_template(jm::Entropy &e, std::string *ops) {
+Units boundary_template(jm::Entropy &e, std::string *ops, int gen2 = 0) {
     std::string t;
     auto        rep = [](const std::string &x, unsigned n) {
         std::string o;
@@ -210,7 +210,24 @@ Units boundary_template(jm::Entropy &e, std::string *ops) {
         }
         return o;
     };
-    switch (e.below(7)) {
+    switch (e.below(gen2 >= 2 ? 9 : 7)) {
+        case 7: { // an unclosed {var: / {raw: inside true= / false= whose body is 256*m + k units long with the attribute's closing quote
+                  // as its (k+1)-th unit (names are kept modulo 256 in places), closed by "}" right behind the quote or not at all
+            const unsigned m_ = 1 + e.below(2), k = e.below(6);
+            std::string    body = std::string("abcdef").substr(0, k) + "\"" + rep("x", 256 * m_ - 1 - e.below(2)) ;
+            t = std::string("{if case=\"") + (e.chance(50) ? "1" : "0") + "\" " + (e.chance(50) ? "true" : "false") + "=\"" + (e.chance(50) ? "{var:" : "{raw:") + body +
+                (e.chance(70) ? "}\"}" : "}") + (e.chance(50) ? "tail{var:a}" : "");
+            if (ops) *ops += "boundary:inline-if-unclosed-var-mod-256;";
+            break;
+        }
+        case 8: { // names of exactly 255 / 256 / 257 / 511 / 512 / 513 units as loop value, loop set, group key and variable inside the loop
+            static const unsigned Ls[] = {255, 256, 257, 511, 512, 513};
+            const unsigned        L    = Ls[e.below(6)];
+            const std::string     nm   = rep("k", L);
+            t = "<loop value=\"" + nm + "\" set=\"l\">[{var:" + nm + "}{raw:" + nm + "[0]}]</loop><loop set=\"items\" group=\"" + nm + "\" value=\"g\">{var:g}</loop>";
+            if (ops) *ops += "boundary:loop-names-around-256=" + std::to_string(L) + ";";
+            break;
+        }
         case 0: { // inline if with 254..258 sub tags in one attribute
             unsigned k = 254 + e.below(5);
             t          = std::string("{if case=\"") + (e.chance(50) ? "1" : "0") + "\" true=\"" + rep("{var:a}", k) + "\" false=\"{var:b}" + (e.chance(50) ? "{var:a}" : "") + "\"}";
@@ -294,7 +311,7 @@ Units make_template(const Case &c, std::string *ops = nullptr) {
         return expression_soup(e, ops);
     }
     if (e.chance(7)) {
-        return boundary_template(e, ops);
+        return boundary_template(e, ops, c.gen2);
     }
     Units       u = tgen::random_template_text(e, c.value_id);
     unsigned    n = e.below(7);
